@@ -455,6 +455,20 @@ func AssertNoGlobalWrites(id string) { events = append(events, Event{"assert", i
 func Canon(n ast.Node) string {
 	// "else { if … }" and "else if …" are one construct for the builder (Else followed by a single If)
 	ast.Inspect(n, func(n ast.Node) bool {
+		if fl, ok := n.(*ast.FieldList); ok && fl != nil {
+			// "X, Y int" and "X int; Y int" declare the same fields
+			var list []*ast.Field
+			for _, f := range fl.List {
+				if len(f.Names) <= 1 {
+					list = append(list, f)
+					continue
+				}
+				for _, name := range f.Names {
+					list = append(list, &ast.Field{Names: []*ast.Ident{name}, Type: f.Type, Tag: f.Tag})
+				}
+			}
+			fl.List = list
+		}
 		if is, ok := n.(*ast.IfStmt); ok {
 			if blk, ok := is.Else.(*ast.BlockStmt); ok && len(blk.List) == 1 {
 				if inner, ok := blk.List[0].(*ast.IfStmt); ok {
@@ -477,7 +491,13 @@ func Canon(n ast.Node) string {
 		case *ast.Ident:
 			sb.WriteString("id:" + v.Name)
 		case *ast.BasicLit:
-			sb.WriteString("lit:" + v.Kind.String() + ":" + v.Value)
+			val := v.Value
+			if v.Kind == token.STRING { // raw and interpreted spellings of one string value
+				if u, err := strconv.Unquote(val); err == nil {
+					val = strconv.Quote(u)
+				}
+			}
+			sb.WriteString("lit:" + v.Kind.String() + ":" + val)
 		case *ast.BinaryExpr:
 			sb.WriteString("bin:" + v.Op.String())
 		case *ast.UnaryExpr:
